@@ -318,7 +318,7 @@ const char *v_sym(uintptr_t addr)
 		int t = ELF64_ST_TYPE(symtab[i].st_info);
 		if (t != STT_FUNC && t != STT_OBJECT && t != STT_NOTYPE)
 			continue;
-		if (!symtab[i].st_shndx || !symtab[i].st_name)
+		if (!symtab[i].st_shndx || !symtab[i].st_name || symtab[i].st_shndx >= SHN_LORESERVE)
 			continue;
 		uintptr_t v = symtab[i].st_value;
 		if (v <= addr && v >= bv && addr - v < (1 << 20)) {
@@ -613,6 +613,16 @@ void wm_disarm(void)
 	if ((uintptr_t)wm_bss_end > (uintptr_t)wm_bss_begin)
 		mprotect(wm_bss_begin, wm_bss_end - wm_bss_begin, PROT_READ | PROT_WRITE);
 	wm_armed = 0;
+}
+const char *v_fault_desc(void)
+{
+	static char d[400];
+	extern int wm_owns(uintptr_t a);
+	snprintf(d, sizeof d, "fault at %s: %s of %s%s", v_sym(v_fault_rip), v_fault_write ? "write" : "read", wm_owns(v_fault_addr) ? v_sym(v_fault_addr) : "address",
+		 wm_owns(v_fault_addr) ? " [library-owned writable memory, read-only after warm-up]" : "");
+	if (!wm_owns(v_fault_addr))
+		snprintf(d + strlen(d), sizeof d - strlen(d), " %p", (void *)v_fault_addr);
+	return d;
 }
 int wm_owns(uintptr_t a)
 {
